@@ -35,6 +35,10 @@ SCRATCH = os.path.join(usimlib.BUILD, "scratch")
 HOST_C = os.path.join(usimlib.VERIF, "harness", "chost", "host.c")
 
 
+COMPONENTS_REAL_EXTRA = ['ChartToC::transform (in-process) and the C text it emits, compiled by gcc with ASan+UBSan and executed']
+COMPONENTS_SIM_EXTRA = ["the generated machine's environment: harness/chost/host.c (callbacks, queues, In() predicate, event matcher written from Recommendation 3.12.1)"]
+
+
 class Context(object):
     def __init__(self, prop, tier, opts):
         self.opts = opts
